@@ -379,7 +379,9 @@ class Qcow2VmdkStreamSuite(Suite):
         while len(out) < n and tries < 6000:
             tries += 1
             if self.fmt == "qcow2":
-                c = c01.gen_case(rng, "quick")
+                # (the first image has a compressed cluster whose stream needs one sector more than a cluster)
+                c = c01.gen_case(rng, "quick") if out else \
+                    c01.gen_case_where(rng, "quick", lambda k: c01.needs_wide_csize(k) and 0 < k["size"] <= 3 * (1 << 20))
                 size = c["size"]
             else:
                 c = c02.gen_case(rng, "quick")
